@@ -21,7 +21,7 @@ import (
 func main() { wk.Main("C20", run) }
 
 func run(c *wk.Ctx) {
-	ncases := c.Pick(480, 6000)
+	ncases := c.Pick(960, 9000)
 	if c.Race {
 		ncases = c.Pick(64, 400)
 	}
